@@ -18,3 +18,8 @@ def search(chk):
 
 def replay(path):
     return ac.replay(path)
+
+
+def extra(chk, info, res):
+    if res is not None:
+        ac.check_intervals(chk, res, ['Disinfection', 'PWM', 'PWM2'])
